@@ -187,4 +187,11 @@ def suite_callw(ctx):
     return callw.suite_callw(ctx, 'C03')
 
 
-SUITES = [suite_echo, suite_service_id, suite_callw]
+def suite_reentrant(ctx):
+    """the pending-response callback uses the client it belongs to (the documentation suggests sending TesterPresent from it): the request in flight goes on as if the
+    callback had done nothing - harness/reentrant.py, metamorphic against a callback that only counts"""
+    from .. import reentrant
+    return reentrant.suite_reentrant(ctx)
+
+
+SUITES = [suite_echo, suite_service_id, suite_callw, suite_reentrant]
